@@ -3,11 +3,12 @@ use super::namespace::NamespaceId;
 
 /// Id uniquely identifying a name and namespace.
 #[derive(Debug, Clone, Copy, Hash, PartialEq, Eq, Ord, PartialOrd)]
-pub struct NameId(pub(crate) u16);
+pub struct NameId(pub(crate) u32);
 
 impl IdIndex<NameId> for NameId {
     fn to_id(index: usize) -> NameId {
-        NameId(index as u16)
+        // ids used to be 16 bit wide and silently wrapped around
+        NameId(u32::try_from(index).expect("too many ids"))
     }
 
     fn from_id(id: NameId) -> usize {
